@@ -798,6 +798,23 @@ impl World {
                         d.truncate(keep.max(1));
                         intact = d.len();
                         touched.push((d.len(), data.len()));
+                        if self.lane == Lane::Null {
+                            // plaintext payloads expose reset tokens: a packet cut right behind a
+                            // NEW_CONNECTION_ID frame *is* a valid stateless reset for a receiver
+                            // that already knows that token (real packet protection hides it).
+                            // A cut inside a packet also damages the last byte it leaves.
+                            let mut end = 0;
+                            let at_boundary = crate::wire::split_types(&data).iter().any(|x| {
+                                end += x.1;
+                                end == d.len()
+                            });
+                            if !at_boundary {
+                                let i = d.len() - 1;
+                                d[i] ^= 1 << self.rng.below(8);
+                                intact = intact.min(i);
+                                touched.push((i, i + 1));
+                            }
+                        }
                     }
                     _ => {
                         let extra = 1 + self.rng.usize(40);
